@@ -26,7 +26,8 @@ decoder in this file, so the oracle never reads implementation state except the 
 Alphabet (d in {"O","I"}; E = the endpoint that sends in direction d, P = its peer):
   ("snd", d, rel, sel, drop)  E sends its next packet, reliable iff rel, carrying appended acks chosen by ``sel`` from the
                               <=3 oldest not-yet-acked reliable wire IDs E has received:  "-" nothing pending,
-                              "a" all of them, "o" only the oldest / "w" only the newest of the window (when >=2
+                              "a" all of them in receipt order, "d" all in descending / "r" rotated numeric order
+                              (where that differs from the receipt order) [dev], "o" only the oldest / "w" only the newest of the window (when >=2
                               pending; "w" = the older ones were lost or are acked late) [dev], "n" none although some
                               are pending [dev]; drop=1: the proxy (an addon) drops it [dev] (sel in -,a,o,n)
   ("pack", d, sel)            E sends a standalone PacketAck for "a"ll / "o"ldest-only [dev] / ne"w"est-only [dev]
@@ -40,6 +41,9 @@ Alphabet (d in {"O","I"}; E = the endpoint that sends in direction d, P = its pe
                               acks the original exactly as for `message.queued`, the COPY (packet_id None, synthetic
                               False) is sent through the circuit inside the hook (hold=0) or kept (hold=1, one per
                               direction) [dev, weight 2].  From then on the copy is an injected packet in the model.
+                              hold=2 / 3: the addon first finalizes the original itself -- circuit.drop_message(msg) /
+                              circuit.send(msg) (forwarded as usual) -- and only then take()s it and sends the copy
+                              (original always carries acks); the copy must not show any ack again
   ("sendheld", d)             the addon sends the copy it kept
   ("ping", d, which)          E sends StartPingCheck (unreliable, forwarded) with OldestUnacked = its oldest unacked
                               reliable id ("u") or the id its next packet will carry ("n") [dev, weight 2]; the
@@ -127,6 +131,7 @@ LIBDIR = {"O": Direction.OUT, "I": Direction.IN}
 ORIGIN = {"O": 1, "I": 2}    # tag high half: 1 = viewer packet, 2 = sim packet, 3/4 = proxy injection toward O/I
 INJ_ORIGIN = {"O": 3, "I": 4}
 WINDOW = 3                   # an endpoint chooses acks among its <=3 oldest pending receipts
+TAKE_MODES = ("now", "hold", "afterdrop", "aftersend")
 
 _T = refwire.templates()
 _NUM_DATA = _T[DATA_MSG].num_bytes
@@ -443,6 +448,14 @@ class ShallowWorld(World):
         class DropAddon(BaseAddon):
             def handle_lludp_message(self, session, region, message):
                 world.hook_calls += 1
+                if world.armed in ("take-afterdrop", "take-aftersend"):
+                    mode, world.armed = world.armed, False
+                    if mode == "take-afterdrop":
+                        region.circuit.drop_message(message)
+                    else:
+                        region.circuit.send(message)
+                    region.circuit.send(message.take())
+                    return True
                 if world.armed in ("take-now", "take-hold"):
                     mode, world.armed = world.armed, False
                     taken = message.take()          # proxy sees message.queued and drops + acks the original
@@ -491,6 +504,34 @@ class ShallowWorld(World):
         raise TypeError("shallow-seam worlds are rebuilt by replay")
 
 
+def _orders(window: List[int]) -> List[str]:
+    """Extra orders in which ALL of the window can be acked: "d" numerically descending, "r" rotated (middle, largest,
+    smallest; 3 receipts only) -- offered only where they differ from the receipt order "a" uses."""
+    out = []
+    if len(window) >= 2:
+        asc = sorted(window)
+        if asc[::-1] != window:
+            out.append("d")
+        if len(window) == 3 and asc[1:] + asc[:1] != window:
+            out.append("r")
+    return out
+
+
+def _select(window: List[int], sel: str) -> List[int]:
+    if sel == "a":
+        return list(window)
+    if sel == "o":
+        return window[:1]
+    if sel == "w":
+        return window[-1:]
+    if sel == "d":
+        return sorted(window, reverse=True)
+    if sel == "r":
+        asc = sorted(window)
+        return asc[1:] + asc[:1]
+    return []
+
+
 class Harness:
     def __init__(self, seam: str = "deep", drop_style: str = "drop"):
         self.seam, self.drop_style = seam, drop_style
@@ -509,7 +550,8 @@ class Harness:
         for d in DIRS:
             e = w.ep[d]
             npend = min(len(e.pending), WINDOW)
-            sels = ["-"] if npend == 0 else (["a", "n"] if npend == 1 else ["a", "o", "w", "n"])
+            orders = _orders(e.pending[:WINDOW])
+            sels = ["-"] if npend == 0 else (["a", "n"] if npend == 1 else ["a", "o", "w", "n"] + orders)
             for rel in (1, 0):
                 for sel in sels:
                     evs.append(("snd", d, rel, sel, 0))
@@ -525,13 +567,18 @@ class Harness:
         for d in DIRS:
             e = w.ep[d]
             npend = min(len(e.pending), WINDOW)
+            orders = _orders(e.pending[:WINDOW])
             sels = ["-"] if npend == 0 else (["a", "n"] if npend == 1 else ["a", "o", "n"])
             for rel in (1, 0):
                 for sel in sels:
                     evs.append(("snd", d, rel, sel, 1))
+            for sel in orders:
+                evs.append(("snd", d, 1, sel, 1))      # dropped packet whose piggy-backed acks are not ascending
             if npend >= 2:
                 evs.append(("pack", d, "o"))
                 evs.append(("pack", d, "w"))
+                for sel in orders:
+                    evs.append(("pack", d, sel))
             if e.own_unacked:
                 evs.append(("rtx", d, 0))
                 evs.append(("rtx", d, 1))
@@ -541,6 +588,11 @@ class Harness:
             evs.append(("take", d, 1, "a" if npend else "-", 0))
             if not w.held[d]:
                 evs.append(("take", d, 1, "a" if npend else "-", 1))
+            if npend:
+                # take() of an ALREADY finalized packet (explicitly dropped / already forwarded), copy re-sent at once;
+                # only interesting when the original carries acks
+                evs.append(("take", d, 1, "a", 2))
+                evs.append(("take", d, 1, "a", 3))
         if w.any_reliable:
             evs.append(("T", "short"))
             evs.append(("T", "exhaust"))
@@ -549,9 +601,9 @@ class Harness:
     def deviation(self, ev) -> int:
         k = ev[0]
         if k == "snd":
-            return 1 if (ev[4] or ev[3] in ("o", "w", "n")) else 0
+            return 1 if (ev[4] or ev[3] in ("o", "w", "n", "d", "r")) else 0
         if k == "pack":
-            return 1 if ev[2] in ("o", "w") else 0
+            return 1 if ev[2] in ("o", "w", "d", "r") else 0
         if k == "rtx":
             return 1
         if k in ("take", "ping"):
@@ -609,7 +661,8 @@ class Harness:
             elif kind == "rtx":
                 self._endpoint_packet(w, ev[1], "data", True, "-", bool(ev[2]), rtx=True)
             elif kind == "take":
-                self._endpoint_packet(w, ev[1], "data", bool(ev[2]), ev[3], True, rtx=False, take="hold" if ev[4] else "now")
+                mode = TAKE_MODES[ev[4]]
+                self._endpoint_packet(w, ev[1], "data", bool(ev[2]), ev[3], mode != "aftersend", rtx=False, take=mode)
             elif kind == "sendheld":
                 self._send_held(w, ev[1])
             elif kind == "ping":
@@ -641,6 +694,15 @@ class Harness:
             msg.direction = LIBDIR[d]
             msg.sender = NEAR if d == "O" else FAR
             self._call(w, "Circuit.collect_acks", w.circuit.collect_acks, msg)
+            if take in ("afterdrop", "aftersend"):
+                # addon hook: circuit.drop_message(message) | circuit.send(message); circuit.send(message.take()); return True
+                if take == "afterdrop":
+                    self._call(w, "ProxiedCircuit.drop_message", w.circuit.drop_message, msg)
+                else:
+                    self._call(w, "ProxiedCircuit.send", w.circuit.send, msg)
+                taken = self._call(w, "Message.take", msg.take)
+                self._call(w, "ProxiedCircuit.send:taken-copy", w.circuit.send, taken)
+                return None
             if take:
                 # addon hook: copy = message.take() [and circuit.send(copy) right away]; return True
                 # proxy afterwards: `if message.queued: region.circuit.drop_message(message)`
@@ -694,14 +756,7 @@ class Harness:
                          take: Optional[str] = None):
         E, P = w.ep[d], w.ep[OTHER[d]]
         window = E.pending[:WINDOW] if what != "ping" else []
-        if sel == "a":
-            acks = list(window)
-        elif sel == "o":
-            acks = window[:1]
-        elif sel == "w":
-            acks = window[-1:]
-        else:
-            acks = []
+        acks = _select(window, sel)
         if what == "ack" and not acks:
             raise ValueError("PacketAck event without pending acks")
         for a in acks:
@@ -747,6 +802,7 @@ class Harness:
                 E.own_unacked.append(n)
         to_P = [g for g in out if g.d == d]
         to_E = [g for g in out if g.d != d]
+        copy_dg: Optional[Dg] = None
         site_fwd = "ProxiedCircuit.prepare_message"
         carriers = [g for g in to_P if g.kind == "data" and g.tag == tag]
         for g in out:
@@ -757,12 +813,29 @@ class Harness:
             pings = [g for g in out if g.kind == "ping"]
             if len(pings) != 1 or pings[0].d != d or len(out) != 1:
                 w.bad("forwarded-packet-missing", site_fwd, f"StartPingCheck {n} from {d}: transport saw {[g.sig() for g in out]}")
-        elif take == "now":
+        elif take in ("now", "afterdrop"):
             # the addon re-sent the copy inside its hook: from here on it is a packet the proxy injected
             if len(carriers) != 1:
                 w.bad("injection-output", "Circuit.send:taken-copy", f"taken packet {n} from {d}: {len(carriers)} copies sent on")
             else:
-                self._register_injection(w, d, carriers[0], rel, tag, None, "Circuit.send:taken-copy")
+                copy_dg = carriers[0]
+                self._register_injection(w, d, copy_dg, rel, tag, None, "Circuit.send:taken-copy")
+        elif take == "aftersend":
+            # the original went on as usual, then a copy of it was injected
+            if len(carriers) != 2:
+                w.bad("injection-output", "Circuit.send:taken-copy", f"forwarded-then-taken packet {n} from {d}: {len(carriers)} datagrams carry it")
+            else:
+                g, copy_dg = carriers
+                if bool(g.flags & F_REL) != rel or (g.flags & F_RESENT):
+                    w.bad("unexpected-datagram", site_fwd, f"packet {n} flags changed to {g.flags:#x}")
+                E.sent[n][2] = g.wire
+                if rel and g.wire in P.rmap:
+                    w.bad("reliable-wire-id-reused", site_fwd,
+                          f"wire id {g.wire} toward {d} already stands for {P.rmap[g.wire]}, now also for packet {n}")
+                if rel:
+                    P.rmap.setdefault(g.wire, ("P", n))
+                    P.receive_reliable(g.wire)
+                self._register_injection(w, d, copy_dg, rel, tag, None, "Circuit.send:taken-copy")
         elif take == "hold":
             if carriers:
                 w.bad("dropped-packet-forwarded", "ProxiedCircuit.drop_message", f"taken packet {n} still went out: {carriers[0].sig()}")
@@ -807,6 +880,9 @@ class Harness:
         else:
             site_P = site_E = "ProxiedCircuit.prepare_message:appended-acks"
         exp_E = [n] if (drop and rel) else []
+        if copy_dg is not None:
+            to_P = [g for g in to_P if g is not copy_dg]
+            self._judge_copy_acks(w, P, OTHER[d], copy_dg, peer_acks, f"copy of packet {n} from {d} (original acks={acks})")
         self._check_shown(w, P, OTHER[d], to_P, peer_acks, bool(inj_acks), site_P,
                           f"{what} {n} from {d} acks={acks} (peer ids {peer_acks}, injected {inj_acks}) drop={drop}")
         self._check_shown(w, E, d, to_E, exp_E, False, site_E, f"{what} {n} from {d} reliable={rel} drop={drop}",
@@ -828,6 +904,18 @@ class Harness:
             fl.append("ping-" + sel)
         w.flags = tuple(fl)
 
+    def _judge_copy_acks(self, w: World, X: Endpoint, xdir: str, g: Dg, delivered: List[int], ctx: str):
+        """A re-sent copy of a taken packet must not carry acknowledgements: whatever the original carried has been
+        (or will be) delivered by the original's own forward / drop."""
+        site = "Message.take:re-sent-copy"
+        for x in g.shown():
+            if x in delivered:
+                w.bad("ack-delivered-twice", site, f"{ctx}: ack {x} shown to endpoint sending {xdir} again on the copy")
+            elif x not in X.sent:
+                w.bad("ack-not-own-id", site, f"{ctx}: copy shows ack {x} to endpoint sending {xdir}, which only sent {sorted(X.sent)}")
+            else:
+                w.bad("ack-without-cause", site, f"{ctx}: copy shows ack {x} nobody gave in this step")
+
     # the addon sends a copy it took earlier: an injection from the circuit's point of view
     def _send_held(self, w: World, d: str):
         n, rel, tag, taken = w.held[d].pop(0)
@@ -838,13 +926,14 @@ class Harness:
         if len(out) != 1 or out[0].kind != "data" or out[0].tag != tag or out[0].d != d:
             w.bad("injection-output", site, f"re-sending taken packet {n} toward {d} produced {[g.sig() for g in out]}")
             raise _Abort()
+        self._judge_copy_acks(w, w.ep[OTHER[d]], OTHER[d], out[0], [], f"kept copy of packet {n} from {d}")
         self._register_injection(w, d, out[0], rel, tag, None, site)
         w.flags = ("send-held",)
 
     def _register_injection(self, w: World, d: str, g: Dg, rel: bool, tag: int, fut, site: str):
         """g = the datagram in which an injected packet first went out."""
         R = w.ep[OTHER[d]]          # receiver (it sends in the other direction)
-        if g.shown() and site != "Circuit.send:taken-copy":   # (a copy's acks are judged with the step's other acks)
+        if g.shown() and site != "Circuit.send:taken-copy":   # (a copy's acks are judged by _judge_copy_acks)
             w.bad("ack-without-cause", site, f"injected packet carries acks {g.shown()}")
         if bool(g.flags & F_REL) != rel or (g.flags & F_RESENT):
             w.bad("injection-output", site, f"injected packet flags {g.flags:#x}, reliable wanted={rel}")
